@@ -16,7 +16,9 @@ import (
 
 	"seata.apache.org/seata-go/pkg/client"
 	ssql "seata.apache.org/seata-go/pkg/datasource/sql"
+	"seata.apache.org/seata-go/pkg/datasource/sql/datasource"
 	"seata.apache.org/seata-go/pkg/datasource/sql/undo"
+	"seata.apache.org/seata-go/pkg/protocol/branch"
 	sgetty "seata.apache.org/seata-go/pkg/remoting/getty"
 	"seata.apache.org/seata-go/pkg/util/log"
 
@@ -150,6 +152,21 @@ type Env struct {
 	Bare       *sql.DB
 	DSN        string
 	ResourceID string
+}
+
+// ResourceDB is the pool the AT resource manager itself uses for phase two (rollback transactions, undo-log clean-up): a
+// *sql.DB over the bare target connector, distinct from the proxy handle e.AT.
+func (e *Env) ResourceDB() *sql.DB {
+	m := datasource.GetDataSourceManager(branch.BranchTypeAT)
+	if m == nil {
+		return nil
+	}
+	if v, ok := m.GetCachedResources().Load(e.ResourceID); ok {
+		if r, ok := v.(*ssql.DBResource); ok {
+			return r.GetDB()
+		}
+	}
+	return nil
 }
 
 type Options struct {
